@@ -460,6 +460,15 @@ func InstallUpgradeGlobals(cfg *Config) {
 
 func (n *Node) InitChain() abci.ResponseInitChain {
 	InstallUpgradeGlobals(n.Cfg)
+	return n.initChain()
+}
+
+// InitChainFirstStart is InitChain as the chain's very first process runs it: the process started
+// over an empty database, so NewPocketCoreApp found no upgrade record to derive the protocol
+// switches from, and nothing but InitChain itself can set them.
+func (n *Node) InitChainFirstStart() abci.ResponseInitChain { return n.initChain() }
+
+func (n *Node) initChain() abci.ResponseInitChain {
 	return n.App.InitChain(abci.RequestInitChain{
 		Time:    genesisTime,
 		ChainId: ChainID,
